@@ -781,8 +781,8 @@ POS_HIST_1D = [[0], [1], [3]]
 POS_HIST_2D = [[0, 0], [3, 0], [0, 1]]
 
 
-def hist_module(name, fam, variants, posset, valseq, exacts, targets, domains, depth):
-    mod, cfg = mc_module(name, fam, variants, [posset], {len(posset): [valseq]}, ERRS[:1], exacts, targets, False, nugs=(0,))
+def hist_module(name, fam, variants, possets, valseqs, exacts, targets, domains, depth):
+    mod, cfg = mc_module(name, fam, variants, possets, valseqs, ERRS[:1], exacts, targets, False, nugs=(0,))
     mod = mod.replace("EXTENDS KrigeSys\n", "EXTENDS KrigeSysHist\n")
     extra = {k: _set(_tla(v) for v in vals) for k, vals in domains.items()}
     extra["HDepth"] = str(depth)
@@ -794,6 +794,7 @@ def hist_module(name, fam, variants, posset, valseq, exacts, targets, domains, d
 
 
 def plan_hist(pid, tier, rng):
+    """One graph job (histories) and one table job (exact solutions) per family; a few TLC starts only."""
     thorough = tier == "thorough"
     depth = 5 if thorough else 4
     only = os.environ.get("VERIF_ONLY")
@@ -804,18 +805,22 @@ def plan_hist(pid, tier, rng):
     v2 = [VARIANTS_2D[0], VARIANTS_2D[1], VARIANTS_2D[3], VARIANTS_2D[7]]
     if not thorough:
         v1, v2 = v1[:5], v2[:3]
-    z3 = [z for z in __import__("itertools").product(range(-2, 3), repeat=3) if len(set(z)) == 3]
-    for fam, variants, posset, tg, dom in ((lin, v1, POS_HIST_1D, TGT_1D, HIST_DOMAINS_1D),
-                                           (sph, v2, POS_HIST_2D, TGT_ST, HIST_DOMAINS_2D)):
+    import itertools
+
+    z3 = [z for z in itertools.product(range(-2, 3), repeat=3) if len(set(z)) == 3]
+    z2 = [z for z in itertools.product(range(-2, 3), repeat=2) if len(set(z)) == 2]
+    for fam, variants, possets, tg, dom in ((lin, v1, [POS_HIST_1D], TGT_1D, HIST_DOMAINS_1D),
+                                            (sph, v2, [POS_HIST_2D, POS_HIST_2D[:1] + POS_HIST_2D[2:]], TGT_ST,
+                                             HIST_DOMAINS_2D)):
         if only and fam[0] not in only.split(","):
             continue
-        for gi, v in enumerate(variants):
-            for ex in ([False, True] if (thorough or pid == "C06" or gi % 2 == 0) else [False]):
-                tag = "H_%s_%d%s" % (fam[0], gi, "x" if ex else "")
-                ps_ = posset if (fam[2] == 1 or v["unb"] or v["drift"]) else posset[:1] + posset[2:]   # 32 bit: two points
-                mod, graph, table = hist_module("MC_" + tag, fam, [v], ps_, list(rng.choice(z3))[:len(ps_)], [ex], tg, dom, depth)
-                jobs.append(dict(tag=tag, kind="hist", mod=mod, cfg=graph, fam=fam[0]))
-                jobs.append(dict(tag=tag, kind="table", mod=mod, cfg=table, fam=fam[0]))
+        valseqs = {3: [list(rng.choice(z3))], 2: [list(rng.choice(z2))]}
+        halves = [variants] if not thorough else _split(variants, 2)
+        for gi, vs in enumerate(halves):
+            tag = "H_%s_%d" % (fam[0], gi)
+            mod, graph, table = hist_module("MC_" + tag, fam, vs, possets, valseqs, [False, True], tg, dom, depth)
+            jobs.append(dict(tag=tag, kind="hist", mod=mod, cfg=graph, fam=fam[0]))
+            jobs.append(dict(tag=tag, kind="table", mod=mod, cfg=table, fam=fam[0]))
     return jobs
 
 
@@ -967,7 +972,7 @@ def _replay_hist_job(job):
 def _replay_hist_inner(job):
     from .. import paths as pathmod
 
-    tag, dot, tabdump, rseed, pid, tier = job
+    tag, dot, tabdump, rseed, pid, tier, part, nparts = job
     Capture.install()
     rng = random.Random(rseed)
     nodes, edges, inits = tlc.read_dot(dot)
@@ -975,6 +980,8 @@ def _replay_hist_inner(job):
     for nd in nodes.values():
         nd["table"] = table
     ps, _left = pathmod.edge_cover(nodes, edges, inits, rng=rng, merge=True)
+    ps = ps[part::nparts]          # the same cover in every part (same seed); this worker takes its share
+    rng = random.Random(rseed + 1 + part)
     col = _Collect()
     res = {"tag": tag, "configs": 0, "nontrivial": set(), "samples": [], "rejected": 0, "merged": 0, "steps": 0}
     for p in ps:
@@ -1388,8 +1395,11 @@ def run(pid, tier, seed, replay=None):
         rep.extra["chunk_table_entries"] = len(chunks_tab)
         work = [("gen", (j["tag"], sc.path(j["tag"] + ".dump"), rng.randrange(2**31), chunks_tab, pid, tier, j["kind"]))
                 for j in jobs if j["kind"] == "gen"]
-        work += [("hist", (j["tag"], sc.path(j["tag"] + ".dot"), sc.path(j["tag"] + "_tab.dump"), rng.randrange(2**31), pid, tier))
-                 for j in jobs if j["kind"] == "hist"]
+        for j in jobs:
+            if j["kind"] == "hist":
+                hseed = rng.randrange(2**31)
+                work += [("hist", (j["tag"], sc.path(j["tag"] + ".dot"), sc.path(j["tag"] + "_tab.dump"), hseed, pid, tier, i, 3))
+                         for i in range(3)]
         if pid == "C06" and not os.environ.get("VERIF_ONLY"):
             nrel = 6 if thorough else 2
             work += [("fit", (rng.randrange(2**31), 50 if thorough else 20)) for _ in range(nrel)]
